@@ -31,7 +31,10 @@ let strip_exact (s : string) : string =
    (same lengths as the defaults) and report the body offsets where the two encodings differ *)
 let dontcare_of ?(maxv = 255) (box : string) (version : int) (l : leaf) : unit =
   let d = dflt_rsv l in
-  let fill v = L.map (fun c -> L.map (fun _ -> n_of_int (if v = 0 then 0 else maxv)) c) d in
+  (* only the chunks the model marks as listed don't-care (rsv_dc) are varied; the others keep their default *)
+  let dc = rsv_dc l in
+  let is_dc i = match L.nth_opt dc i with Some b -> b | None -> true in
+  let fill v = L.mapi (fun i c -> if is_dc i then L.map (fun _ -> n_of_int (if v = 0 then 0 else maxv)) c else c) d in
   let h = { h_name = []; h_size = N0; h_len = n_of_int 8 } in
   match raw_box true (MLeaf (h, l, fill 0)), raw_box true (MLeaf (h, l, fill 1)) with
   | Base.Ok a, Base.Ok b ->
@@ -50,6 +53,37 @@ let dontcare_of ?(maxv = 255) (box : string) (version : int) (l : leaf) : unit =
 let z = N0
 let n = n_of_int
 
+(* ---- why mode: the model's reasons for a decoded tree not being reproduced ---- *)
+let rec int_of_nat (k : Datatypes.nat) : int = match k with Datatypes.O -> 0 | Datatypes.S m -> 1 + int_of_nat m
+let str_of_name (nm : coq_N list) : string = S.concat "" (L.map (fun c -> S.make 1 (Char.chr (int_of_n c land 255))) nm)
+let visual_names = ["avc1"; "avc3"; "hvc1"; "hev1"; "encv"; "av01"; "vp08"; "vp09"]
+let audio_names = ["mp4a"; "enca"; "ac-3"; "ec-3"]
+(* names of the captured chunks that are NOT on the don't-care list (rsv_dc = false) *)
+let chunk_name (site : string) (dc : bool) (i : int) : string =
+  if L.mem site visual_names && i = 3 then "compressorname-padding-zeroed"
+  else if L.mem site visual_names && i = 4 then "depth-rewritten-0x0018"
+  else if L.mem site audio_names && i = 3 then "samplerate-fraction-dropped"
+  else if site = "avcC" && i = 5 then "bytes-after-record-dropped"
+  else if dc then "reserved-bits-rewritten" else Printf.sprintf "chunk%d-rewritten" i
+let reason_str (site : string) (r : reason) : string =
+  match r with
+  | RLarge -> "large-size-header-compacted"
+  | RSizeBig -> "size-field-above-fields"
+  | RSizeSmall -> "size-field-below-fields"
+  | RGuard -> "trun-data-offset-zero"
+  | RMoov -> "trak-reordered"
+  | RMoof -> "moof-trun-data-offset-zero"
+  | RRsv (dc, i) -> chunk_name site dc (int_of_nat i)
+  | RShape -> "shape"
+let why (bs : coq_N list) : string =
+  match decode bs with
+  | Base.Ok (t, rest) ->
+    let rs = L.map (fun (nm, r) -> let site = str_of_name nm in site ^ ":" ^ reason_str site r) (why_box t) in
+    Printf.sprintf "ok rest=%d %s" (L.length rest) (S.concat ";" rs)
+  | Base.Err -> "rej"
+  | Base.Panic -> "panic"
+  | Base.OutOfFuel -> "fuel"
+
 let () =
   if Array.length Sys.argv > 1 && Sys.argv.(1) = "dontcare" then begin
     L.iter (fun v ->
@@ -60,10 +94,15 @@ let () =
         dontcare_of "hdlr" v (LHdlr (n v, z, z, [z; z; z; z], [], false));
         dontcare_of "smhd" v (LSmhd (n v, z, z));
         dontcare_of "tenc" v (LTenc (n v, z, z, z, z, z, L.init 16 (fun _ -> z), []));
-        dontcare_of ~maxv:67108863 "tfra" v (LTfra (n v, z, z, z, z, z, []))) [0; 1; 2; 3]
+        dontcare_of ~maxv:67108863 "tfra" v (LTfra (n v, z, z, z, z, z, []))) [0; 1; 2; 3];
+    (* boxes without version: printed with version -1 *)
+    L.iter (fun nm -> dontcare_of nm (-1) (LVisual (bytes_of_hex "00000000", z, z, z, z, z, z, [])))
+      ["avc1"; "avc3"; "hvc1"; "hev1"; "encv"; "av01"; "vp08"; "vp09"];
+    L.iter (fun nm -> dontcare_of nm (-1) (LAudio (bytes_of_hex "00000000", z, z, z, z))) ["mp4a"; "enca"; "ac-3"; "ec-3"]
   end else
   if Array.length Sys.argv > 1 && Sys.argv.(1) = "names" then begin
     L.iter (fun (n, _) -> Printf.printf "leaf %s\n" (hex_of_bytes n)) leaf_table;
+    L.iter (fun (n, _) -> Printf.printf "leaf %s\n" (hex_of_bytes n)) pre_table;
     L.iter (fun n -> Printf.printf "cont %s\n" (hex_of_bytes n)) cont_table
   end else
     iter_lines (fun line ->
@@ -74,4 +113,5 @@ let () =
               (if S.length m > 7 && S.sub m 0 6 = "dec=ok" then
                  (if L.mem "exact=1" (split_on ';' m) then "exact" else "inexact") else "rej")
           else Printf.printf "MISMATCH %s model=%s\n" id m
+        | ["W"; id; inhex] -> Printf.printf "WHY %s %s\n" id (why (bytes_of_hex inhex))
         | _ -> Printf.printf "BADLINE %s\n" line)
